@@ -145,9 +145,75 @@ pub fn mint(spec: &CertSpec) -> Minted {
 }
 
 /// The certificate an honest anemo endpoint with this key and name presents.
+#[cfg(feature = "direct")]
 pub fn honest_cert(seed: &[u8; 32], name: &str) -> CertificateDer<'static> {
     let (_, der, _) = anemo::verif::direct::endpoint_identity(*seed, name, None).unwrap();
     CertificateDer::from(der)
+}
+
+/// (without the direct-drive wrappers: a self-signed certificate of that key for that name)
+#[cfg(not(feature = "direct"))]
+pub fn honest_cert(seed: &[u8; 32], name: &str) -> CertificateDer<'static> {
+    mint(&CertSpec::plain(*seed, None, vec![name.to_owned()])).der
+}
+
+/// A request as it travels (DESIGN 3.3 / AnemoWire): preamble, header frame (bincode: route, header
+/// map), body frame - written by the harness itself, not by the code under test.
+pub fn encode_request(route: &str, headers: &[(&str, &str)], body: &[u8]) -> Vec<u8> {
+    let mut h = Vec::new();
+    h.extend_from_slice(&(route.len() as u64).to_le_bytes());
+    h.extend_from_slice(route.as_bytes());
+    let map: std::collections::BTreeMap<&str, &str> = headers.iter().copied().collect();
+    h.extend_from_slice(&(map.len() as u64).to_le_bytes());
+    for (k, v) in map {
+        h.extend_from_slice(&(k.len() as u64).to_le_bytes());
+        h.extend_from_slice(k.as_bytes());
+        h.extend_from_slice(&(v.len() as u64).to_le_bytes());
+        h.extend_from_slice(v.as_bytes());
+    }
+    let mut out = PREAMBLE.to_vec();
+    out.extend_from_slice(&(h.len() as u32).to_be_bytes());
+    out.extend_from_slice(&h);
+    out.extend_from_slice(&(body.len() as u32).to_be_bytes());
+    out.extend_from_slice(body);
+    out
+}
+
+/// A response as the harness reads it off the wire.
+pub struct RawResponse {
+    pub status: u16,
+    pub headers: std::collections::HashMap<String, String>,
+    pub body: bytes::Bytes,
+}
+
+pub fn decode_response(data: &[u8]) -> anyhow::Result<RawResponse> {
+    fn take<'a>(d: &mut &'a [u8], n: usize) -> anyhow::Result<&'a [u8]> {
+        anyhow::ensure!(d.len() >= n, "response truncated");
+        let (a, b) = d.split_at(n);
+        *d = b;
+        Ok(a)
+    }
+    fn string(d: &mut &[u8]) -> anyhow::Result<String> {
+        let n = u64::from_le_bytes(take(d, 8)?.try_into().unwrap()) as usize;
+        Ok(String::from_utf8(take(d, n)?.to_vec())?)
+    }
+    let mut d = data;
+    anyhow::ensure!(take(&mut d, 8)? == &PREAMBLE[..], "bad preamble");
+    let hl = u32::from_be_bytes(take(&mut d, 4)?.try_into().unwrap()) as usize;
+    let mut h = take(&mut d, hl)?;
+    let status = u16::from_le_bytes(take(&mut h, 2)?.try_into().unwrap());
+    let n = u64::from_le_bytes(take(&mut h, 8)?.try_into().unwrap());
+    let mut headers = std::collections::HashMap::new();
+    for _ in 0..n {
+        let k = string(&mut h)?;
+        let v = string(&mut h)?;
+        headers.insert(k, v);
+    }
+    anyhow::ensure!(h.is_empty(), "trailing bytes in the response header");
+    let bl = u32::from_be_bytes(take(&mut d, 4)?.try_into().unwrap()) as usize;
+    let body = bytes::Bytes::copy_from_slice(take(&mut d, bl)?);
+    anyhow::ensure!(d.is_empty(), "trailing bytes after the response");
+    Ok(RawResponse { status, headers, body })
 }
 
 //
